@@ -91,18 +91,7 @@ static void *h_t2(void *p) { (void) p;
 	} return NULL; }
 
 #if defined(VARIANT_TSAN)
-extern volatile _Bool bidib_running, bidib_discard_rx, bidib_seq_num_enabled, bidib_lowlevel_debug_mode;
-static void emit_races(const char *what) {
-	for (int i = 0; i < san_nevents(); i++) { const san_event_t *e = san_event(i);
-		uintptr_t a = e->addr; if (a == (uintptr_t) &bidib_running || a == (uintptr_t) &bidib_discard_rx || a == (uintptr_t) &bidib_seq_num_enabled || a == (uintptr_t) &bidib_lowlevel_debug_mode) { res_printf("C tsan_reports_on_mode_flags_ignored 1\n"); continue; }
-		const char *fn[2] = {"?", "?"}; int k = 0; char stack[500]; size_t so = 0; stack[0] = 0;
-		for (int p = 0; p < e->npcs; p++) { if (!e->pcs[p]) { k++; so += (size_t) snprintf(stack + so, sizeof stack - so, "| "); continue; } const char *s = hx_sym(e->pcs[p] - 1); if (so + 50 < sizeof stack) so += (size_t) snprintf(stack + so, sizeof stack - so, "%s ", s);
-			if (k < 2 && !strcmp(fn[k], "?") && (!strncmp(s, "bidib_", 6) || !strncmp(s, "__wrap_g_", 9))) fn[k] = s; }
-		const char *f0 = fn[0], *f1 = fn[1]; if (strcmp(f0, f1) > 0) { const char *t = f0; f0 = f1; f1 = t; }
-		char cls[220]; snprintf(cls, sizeof cls, "tsan %s between %s and %s", e->kind, f0, f1);
-		res_violation(cls, "%s: %s of %d bytes; stacks: %s", what, e->is_write ? "write" : "read", e->size, stack);
-	}
-}
+#define emit_races hx_emit_tsan_races
 #endif
 static void c10_child(const void *job, size_t n) {
 	vs_dev_t devs[VS_MAXDEV]; int nd; size_t pl; const uint8_t *p = job_parse(job, n, devs, &nd, &pl);
